@@ -229,6 +229,99 @@ def exc_str(e):
     return f"{type(e).__name__}: {str(e)[:80]}"
 
 
+# ---------------------------------------------------------------------------------------
+# parameter-object histories (kind "phist", oracle only)
+# ---------------------------------------------------------------------------------------
+PFIELDS = ["max_bond_dim", "rel_tol", "total_tol", "renorm", "sum_trunc", "sum_renorm"]
+PDEFAULTS = {"max_bond_dim": 100, "rel_tol": 1e-15, "total_tol": 1e-15, "renorm": False, "sum_trunc": False, "sum_renorm": True}
+PCLASSES = ["SVDParameters", "BUGConfig", "TruncationSettings"]
+_PCLS = {}
+
+
+def param_classes():
+    """name -> class of the parameter objects of the histories: SVDParameters itself, every subclass the LIBRARY defines
+    (BUGConfig, the configuration object the BUG time evolution hands to the truncation, and whatever else is found), and a
+    plain dataclass subclass as a caller would write it (one more field, everything else inherited)."""
+    if _PCLS:
+        return _PCLS
+    import dataclasses
+    import importlib
+    from pytreenet.util.tensor_splitting import SVDParameters
+    for mod in ("pytreenet", "pytreenet.time_evolution.bug", "pytreenet.time_evolution"):
+        try:
+            importlib.import_module(mod)
+        except Exception:  # noqa
+            pass
+    _PCLS["SVDParameters"] = SVDParameters
+    todo = list(SVDParameters.__subclasses__())
+    while todo:
+        c = todo.pop()
+        if str(getattr(c, "__module__", "")).startswith("pytreenet") and c.__name__ not in _PCLS:
+            _PCLS[c.__name__] = c
+            todo += list(c.__subclasses__())
+    cls = dataclasses.make_dataclass("TruncationSettings", [("label", str, "harness")], bases=(SVDParameters, ))
+    cls.__module__ = __name__
+    cls.__qualname__ = "TruncationSettings"
+    globals()["TruncationSettings"] = cls          # (pickle looks the class up by module and name)
+    _PCLS["TruncationSettings"] = cls
+    return _PCLS
+
+
+def phist_values(case):
+    """Replay of a parameter-object history WITHOUT the library: the parameter VALUES in effect at every step (what the
+    caller wrote into the object he is holding at that moment), one entry per step (None for steps that are not uses)."""
+    vals = dict(PDEFAULTS)
+    vals.update({k: _dec(v) for k, v in case["init"].items()})
+    out = []
+    for st in case["steps"]:
+        if st[0] == "set":
+            vals[st[1]] = _dec(st[2])
+            out.append(None)
+        elif st[0] == "clone":
+            if st[1] == "replace":
+                vals.update({k: _dec(v) for k, v in st[2].items()})
+            out.append(None)
+        elif st[0] == "use":
+            out.append(dict(vals))
+        else:                     # rejected construction / rejected call: nothing changes
+            out.append(None)
+    return out
+
+
+def rule_counts(sref, v):
+    """(lo, hi): the numbers of kept singular values compatible with the documented rule for the parameter values v; a
+    singular value / tail weight within 1e-6 relative of the cutoff, or at the level of the rounding noise of the SVD
+    (1e-12 of the largest), may fall on either side."""
+    k = len(sref)
+    cap = k if v["max_bond_dim"] == float("inf") else min(int(v["max_bond_dim"]), k)
+    s0 = float(sref[0])
+    if v["sum_trunc"]:
+        total = float(np.sum(sref ** 2))
+        tot2 = float("inf") if math.isinf(v["total_tol"]) else v["total_tol"] ** 2
+        noise = 1e-24 * (1.0 if (v["sum_renorm"] and total != 0) else max(total, 1e-300))
+        most = least = 0
+        for d in range(k + 1):
+            w = float(np.sum(sref[k - d:] ** 2))
+            if v["sum_renorm"] and total != 0:
+                w = w / total
+            if w <= tot2 * (1 + 1e-6) + noise:
+                most = d
+            if w <= tot2 * (1 - 1e-6) - noise or d == 0:
+                least = d
+        lo, hi = k - most, k - least
+    else:
+        a = v["rel_tol"] * s0 if (s0 > 0 or math.isfinite(v["rel_tol"])) else float("-inf")
+        cut = max(a, v["total_tol"])
+        if cut == float("-inf"):
+            lo = hi = k
+        elif cut == float("inf"):
+            lo = hi = 0
+        else:
+            eps = 1e-6 * abs(cut) + 1e-12 * s0
+            lo, hi = int(np.sum(sref > cut + eps)), int(np.sum(sref > cut - eps))
+    return max(1, min(lo, cap)), max(1, min(hi, cap))
+
+
 class C11(Prop):
     id = "C11"
     title = "tensor QR/SVD for every bipartition and mode"
@@ -259,7 +352,18 @@ class C11(Prop):
             "rank-deficient entries (low rank with a random rank 1..k-1, zero-padded, vanishing slices, sparse, small integers, constant), the "
             "others draw the three attributes independently (half rectangular, half rank deficient); any layout / dtype / leg order, all "
             "entry points, the truncation-off run now also checks S descending and U, Vh isometries; their model tie is dealt round-robin "
-            "over the parallel shards. non-trivial = order >= 2 and size >= 2; distinct by case content")
+            "over the parallel shards. PARAMETER-OBJECT HISTORIES (kind phist, oracle only; quick 150, thorough 3000): ONE parameter "
+            "object -- SVDParameters, every subclass the library defines (BUGConfig, found by walking SVDParameters.__subclasses__()), or a "
+            "caller's plain dataclass subclass; built with explicit values or with the defaults and fields assigned afterwards -- is used for "
+            "2..8 truncated splittings (truncated_tensor_svd + one contraction mode each; tensors of order 2..4, short side >= 3, generic / low "
+            "rank / degenerate / integer entries, any layout and leg container); between the uses its fields are re-assigned (max_bond_dim "
+            "raised, lowered, lifted to inf; tolerances; renorm, sum_trunc, sum_renorm), the used object is replaced by copy.copy / deepcopy / "
+            "a pickle round trip / dataclasses.replace (with or without a changed field), a construction with invalid values or a call with "
+            "malformed legs is rejected (the caller's object must be unchanged) and the caller carries on; every use is judged with the VALUES "
+            "the object holds at that moment (replayed without the library): number of kept singular values within the documented rule "
+            "(own SVD; cutoff ties and rounding noise leave a range), shapes, leading singular values, isometries, Eckart-Young error of "
+            "U S Vh and of the contracted factors (so: contract back to the tensor when nothing may be discarded), no exception. "
+            "non-trivial = order >= 2 and size >= 2 (phist: at least two uses); distinct by case content")
     clauses = [
         ("F", "row-major flatten/unflatten are inverse on the index box of any shape; the lexicographic box enumeration maps onto "
               "0..size-1 (C11_flatten_unflatten, C11_unflatten_flatten, C11_flatten_bijection)"),
@@ -281,6 +385,12 @@ class C11(Prop):
               "truncation rule: validated numerically on every case against an independent reference (tolerance 1e-9 * max(1,|t|); 1e-9 * |t| for "
               "the badly scaled family); lossless truncation parameters (tolerances 0 / -inf / defaults / tiny, either criterion, any scale "
               "1e-100..1e100) reproduce the tensor in all contraction modes"),
+        ("V", "parameter-object histories (kind phist, oracle only, no model tie): the truncated splitting obeys the parameter VALUES currently "
+              "in the caller's object -- after fields were re-assigned between uses (both directions, incl. max_bond_dim = inf), for "
+              "library-defined subclasses of SVDParameters (BUGConfig) and a caller's subclass, for copies / deepcopies / pickles / "
+              "dataclasses.replace of used objects, and after rejected constructions / calls: kept count by the documented rule, factors "
+              "contract to the optimal truncation (to the tensor when nothing may be discarded), isometries, a use never changes the object: "
+              "runtime check against own SVD"),
     ]
     trusted_base = [
         "kernel contracts (hypotheses of the O theorems, validated numerically each run): np.linalg.qr returns (Q,R) with QR=A, Q^H Q=1, shapes "
@@ -416,6 +526,75 @@ class C11(Prop):
         k = rng.choice([0, n] + list(range(n + 1)) * 3) if n else 0
         return legs[:k], legs[k:]
 
+    # -- parameter-object histories (kind "phist") ------------------------------------------------------------------
+    @staticmethod
+    def _pvalue(rng, field):
+        if field == "max_bond_dim":
+            return rng.choice([1, 2, 2, 3, 4, 6, 100, "inf", "inf"])
+        if field == "rel_tol":
+            return rng.choice(["-inf", "-inf", 0.0, 1e-15, 1e-12, 0.05, 0.3])
+        if field == "total_tol":
+            return rng.choice(["-inf", "-inf", 0.0, 1e-15, 1e-12, 0.2, 1.0])
+        return rng.random() < {"renorm": 0.15, "sum_trunc": 0.25, "sum_renorm": 0.5}[field]
+
+    def _puse(self, rng, cplx):
+        for _ in range(10):
+            n = rng.choice([2, 2, 3, 3, 4])
+            sh = [rng.choice([2, 3, 4, 5, 6]) for _ in range(n)]
+            while prod(sh) > 400:
+                sh[rng.randrange(n)] = 2
+            legs = list(range(n))
+            if rng.random() >= 0.25:
+                rng.shuffle(legs)
+            k = rng.randrange(1, n)
+            ql, rl = legs[:k], legs[k:]
+            if min(prod([sh[a] for a in ql]), prod([sh[a] for a in rl])) >= 3:
+                break
+        return ["use", {"shape": sh, "ql": ql, "rl": rl, "content": rng.choice(["normal", "normal", "normal", "lowrank", "degenerate", "int"]),
+                        "seed": rng.randrange(10 ** 6), "cplx": cplx, "cm": rng.choice(CMODES), "as_list": rng.random() < 0.4,
+                        "layout": rng.choice(["C"] * 5 + LAYOUTS)}]
+
+    def _gen_phist(self, rng, classes):
+        """ONE parameter object (SVDParameters, a subclass the library defines, or a caller's dataclass subclass) used for several
+        truncated splittings; between the uses its fields are re-assigned (bond limit raised / lowered / lifted to inf, tolerances and
+        switches changed), it is copied / deep-copied / pickled / dataclasses.replace()d and the copy is used on, a construction with
+        invalid values or a call with malformed legs is rejected and the caller carries on with the object."""
+        cplx = rng.random() < 0.6
+        init = {} if rng.random() < 0.3 else {f: self._pvalue(rng, f) for f in PFIELDS}
+        steps = []
+
+        def a_set():
+            f = "max_bond_dim" if rng.random() < 0.6 else rng.choice(PFIELDS[1:])
+            return ["set", f, self._pvalue(rng, f)]
+        if not init or rng.random() < 0.25:
+            for _ in range(rng.choice([1, 2, 3])):
+                steps.append(a_set())          # assigned before the first use
+        nseg = rng.choice([2, 2, 3, 4])
+        for seg in range(nseg):
+            for _ in range(rng.choice([1, 1, 2])):
+                steps.append(self._puse(rng, cplx))
+            if seg == nseg - 1:
+                break
+            for _ in range(rng.choice([1, 1, 2])):
+                r = rng.random()
+                if r < 0.55:
+                    steps.append(a_set())
+                elif r < 0.8:
+                    how = rng.choice(["copy", "deepcopy", "pickle", "replace"])
+                    ch = {}
+                    if how == "replace" and rng.random() < 0.6:
+                        f = rng.choice(PFIELDS)
+                        ch[f] = self._pvalue(rng, f)
+                    steps.append(["clone", how, ch])
+                elif r < 0.9:
+                    steps.append(["reject", rng.choice([{"max_bond_dim": 0}, {"max_bond_dim": -3}, {"max_bond_dim": 2.5}, {"rel_tol": -0.5},
+                                                         {"total_tol": -1e-3}, {"max_bond_dim": "-inf"}])])
+                else:
+                    u = self._puse(rng, cplx)[1]
+                    u["ql"] = u["ql"] + [u["ql"][0]] if rng.random() < 0.5 else u["ql"][1:] + [len(u["shape"]) + 1]
+                    steps.append(["baduse", u])
+        return {"kind": "phist", "cls": rng.choice(classes), "init": init, "steps": steps}
+
     def generate(self, ctx, stream, budget_scale=1):
         rng = ctx.rng(stream)
         th = ctx.thorough()
@@ -503,15 +682,41 @@ class C11(Prop):
             c["kind"] = "malformed"
             c["how"] = how
             cases.append(c)
+        # parameter-object histories (oracle only): one object, several uses, fields re-assigned / object copied in between
+        classes = PCLASSES + sorted(k for k in param_classes() if k not in PCLASSES)
+        for _ in range(ctx.scale(150, 3000) * budget_scale):
+            cases.append(self._gen_phist(rng, classes))
         return cases
 
     def nontrivial(self, case):
+        if case["kind"] == "phist":
+            return sum(1 for st in case["steps"] if st[0] == "use") >= 2
         return case["kind"] == "split" and len(case["shape"]) >= 2 and prod(case["shape"]) >= 2
 
     def distribution(self, cases):
         c = Counter()
         for x in cases:
             c["kind:" + x["kind"]] += 1
+            if x["kind"] == "phist":
+                c["phist:class=" + x["cls"]] += 1
+                c["phist:uses"] += sum(1 for st in x["steps"] if st[0] == "use")
+                vs = [v for v in phist_values(x) if v is not None]
+                for a, b in zip(vs, vs[1:]):
+                    if a["max_bond_dim"] != b["max_bond_dim"]:
+                        c["phist:consecutive uses with max_bond_dim " + ("raised" if b["max_bond_dim"] > a["max_bond_dim"] else "lowered")
+                          + (" to inf" if b["max_bond_dim"] == float("inf") else "")] += 1
+                    elif a != b:
+                        c["phist:consecutive uses with another field changed"] += 1
+                for st in x["steps"]:
+                    if st[0] == "clone":
+                        c["phist:" + st[1] + " of a used object"] += 1
+                    elif st[0] in ("reject", "baduse"):
+                        c["phist:rejected " + ("construction" if st[0] == "reject" else "call (malformed legs)") + ", caller carries on"] += 1
+                if any(v["max_bond_dim"] == float("inf") for v in vs):
+                    c["phist:some use with max_bond_dim=inf"] += 1
+                if not x["init"]:
+                    c["phist:constructed with defaults, fields assigned afterwards"] += 1
+                continue
             if x["kind"] != "split":
                 continue
             sh = x["shape"]
@@ -667,11 +872,66 @@ class C11(Prop):
                     ob["contr"][tag + cm] = {"exc": exc_str(e)}
         return ob
 
+    def _phist_impl(self, case):
+        import copy
+        import dataclasses
+        import pickle
+        from pytreenet.util import tensor_splitting as ts
+        cls = param_classes().get(case["cls"])
+        if cls is None:
+            return {"skip": f"no class {case['cls']} in this library"}
+        ob = {"steps": []}
+        try:
+            obj = cls(**{k: _dec(v) for k, v in case["init"].items()})
+        except Exception as e:  # noqa
+            ob["init_exc"] = exc_str(e)
+            return ob
+        fields = lambda o: {f: getattr(o, f, None) for f in PFIELDS}  # noqa
+        for st in case["steps"]:
+            rec = {}
+            try:
+                if st[0] == "set":
+                    setattr(obj, st[1], _dec(st[2]))
+                elif st[0] == "clone":
+                    if st[1] == "copy":
+                        obj = copy.copy(obj)
+                    elif st[1] == "deepcopy":
+                        obj = copy.deepcopy(obj)
+                    elif st[1] == "pickle":
+                        obj = pickle.loads(pickle.dumps(obj))
+                    else:
+                        obj = dataclasses.replace(obj, **{k: _dec(v) for k, v in st[2].items()})
+                elif st[0] == "reject":
+                    before = fields(obj)
+                    try:
+                        cls(**{k: _dec(v) for k, v in st[1].items()})
+                        rec["accepted"] = True
+                    except Exception as e:  # noqa
+                        rec["rejected"] = exc_str(e)
+                    rec["params_same"] = fields(obj) == before
+                else:
+                    u = st[1]
+                    conv = list if u["as_list"] else tuple
+                    ql, rl = conv(u["ql"]), conv(u["rl"])
+                    t = with_layout(make_tensor(u), u.get("layout", "C"), u["seed"])
+                    before = fields(obj)
+                    try:
+                        uu, ss, vh = ts.truncated_tensor_svd(t, ql, rl, obj)
+                        a, b = ts.contr_truncated_svd_splitting(t, ql, rl, contr_mode=ts.ContractionMode[u["cm"]], svd_params=obj)
+                        rec.update({"U": uu, "S": np.asarray(ss), "Vh": vh, "A": a, "B": b})
+                    except Exception as e:  # noqa
+                        rec["exc"] = exc_str(e)
+                    rec["params_same"] = fields(obj) == before
+            except Exception as e:  # noqa
+                rec["exc"] = exc_str(e)
+            ob["steps"].append(rec)
+        return ob
+
     def impl(self, ctx, cases):
         out = []
         for c in cases:
             try:
-                out.append(self._impl_one(c))
+                out.append(self._phist_impl(c) if c["kind"] == "phist" else self._impl_one(c))
             except Exception as e:  # noqa
                 out.append({"exception": exc_str(e), "tb": traceback.format_exc()[-1500:]})
         return out
@@ -695,6 +955,16 @@ class C11(Prop):
         return out
 
     def model(self, ctx, cases, obs):
+        # parameter-object histories are oracle only (no model for them)
+        sel = [i for i, c in enumerate(cases) if c["kind"] != "phist"]
+        if len(sel) != len(cases):
+            sub = self.model(ctx, [cases[i] for i in sel], [obs[i] for i in sel]) if sel else []
+            out = [None] * len(cases)
+            for i, v in zip(sel, sub):
+                out[i] = v
+            return out
+        if not cases:
+            return []
         # NB: lib.coq_eval reads a shard's stdout only after the process has exited, so a shard must print less
         # than one pipe buffer (64 KiB): entries are compared inside Coq (cmp_enc) and shards are kept small.
         exprs = []
@@ -808,7 +1078,86 @@ class C11(Prop):
         return None
 
     # ---------------------------------------------------------------------------------
+    @staticmethod
+    def _pdescr(case, upto):
+        def one(st):
+            if st[0] in ("use", "baduse"):
+                u = st[1]
+                return f"{'use' if st[0] == 'use' else 'rejected call'}(shape {u['shape']}, legs {u['ql']}|{u['rl']}, {u['cm']})"
+            if st[0] == "set":
+                return f"obj.{st[1]} = {st[2]}"
+            if st[0] == "clone":
+                return f"obj = {st[1]}(obj{', ' + str(st[2]) if st[2] else ''})"
+            return f"{case['cls']}({st[1]}) rejected"
+        return f"obj = {case['cls']}({case['init']}); " + "; ".join(one(st) for st in case["steps"][:upto + 1])
+
+    def _oracle_phist(self, case, ob):
+        if "skip" in ob:
+            return None
+        if "init_exc" in ob:
+            return f"{case['cls']}({case['init']}) with valid values raised {ob['init_exc']}"
+        vals = phist_values(case)
+        for j, (st, rec, v) in enumerate(zip(case["steps"], ob["steps"], vals)):
+            where = self._pdescr(case, j)
+            if st[0] in ("reject", "baduse"):
+                if not rec.get("params_same", True):
+                    return f"{where}: the rejected call changed the caller's parameter object"
+                continue
+            if "exc" in rec:
+                return f"{where}: raised {rec['exc']}"
+            if st[0] != "use":
+                continue
+            w = self._oracle_puse(st[1], rec, v)
+            if w:
+                shown = {k: v[k] for k in PFIELDS}
+                return f"{where}: with the parameter values {shown} now in the object: {w}"
+        return None
+
+    @staticmethod
+    def _oracle_puse(u, rec, v):
+        shape, ql, rl = u["shape"], u["ql"], u["rl"]
+        t = make_tensor(u)
+        dq, dr = [shape[a] for a in ql], [shape[a] for a in rl]
+        m, nn = prod(dq), prod(dr)
+        k = min(m, nn)
+        expected = loop_transpose(t, ql + rl)
+        sref = np.linalg.svd(expected.reshape(m, nn), compute_uv=False)
+        scale = max(1.0, float(sref[0]))
+        lo, hi = rule_counts(sref, v)
+        if not rec.get("params_same", True):
+            return "the call changed the caller's parameter object"
+        uu, ss, vh, a, b = rec["U"], rec["S"], rec["Vh"], rec["A"], rec["B"]
+        p = len(ss)
+        if list(uu.shape) != dq + [p] or list(vh.shape) != [p] + dr:
+            return f"truncated_tensor_svd: shapes {list(uu.shape)}, {[p]}, {list(vh.shape)}"
+        for name, q in (("truncated_tensor_svd", p), ("contr_truncated_svd_splitting", a.shape[-1])):
+            if not lo <= q <= hi:
+                return (f"{name} keeps {q} of the {k} singular values {sref.tolist()}; the documented rule gives "
+                        f"{lo if lo == hi else str(lo) + '..' + str(hi)}")
+        if list(a.shape) != dq + [a.shape[-1]] or list(b.shape) != [a.shape[-1]] + dr:
+            return f"contr_truncated_svd_splitting: shapes {list(a.shape)}, {list(b.shape)}"
+        fac = float(np.sum(sref) / np.sum(sref[:p])) if (v["renorm"] and np.sum(sref[:p]) > 0) else 1.0
+        if float(np.max(np.abs(ss - fac * sref[:p]))) > 1e-8 * scale:
+            return f"returned values {ss.tolist()} are not the {'rescaled ' if v['renorm'] else ''}{p} largest singular values {sref.tolist()}"
+        if not close(gram_last(uu), np.eye(p)) or not close(gram_first(vh), np.eye(p)):
+            return "U / Vh are not isometries"
+        prod_t = np.tensordot(uu * ss, vh, axes=(-1, 0))
+        if not v["renorm"]:
+            for name, pr, q in (("U S Vh", prod_t, p), ("the two contracted factors", np.tensordot(a, b, axes=(-1, 0)), a.shape[-1])):
+                err = float(np.linalg.norm((pr - expected).ravel()))
+                opt = float(np.sqrt(np.sum(sref[q:] ** 2)))
+                if abs(err - opt) > 1e-8 * scale * math.sqrt(max(1, t.size)):
+                    return (f"{name} ({q} of {k} values kept) differ from the tensor by {err:.3e}; the discarded weight is {opt:.3e}"
+                            + (" (nothing may be discarded: the factors have to contract back to the tensor)" if q == k else ""))
+        if a.shape[-1] == p and not close(np.tensordot(a, b, axes=(-1, 0)), prod_t, scale):
+            return f"contr_truncated_svd_splitting({u['cm']}): the two factors do not contract to U S Vh"
+        return None
+
     def oracle(self, case, ob):
+        if case["kind"] == "phist":
+            if "exception" in ob:
+                return f"raised {ob['exception']}"
+            return self._oracle_phist(case, ob)
         if "exception" in ob:
             return f"raised {ob['exception']}"
         shape = case["shape"]
